@@ -424,6 +424,8 @@ func c06(c *Ctx) (*report.Result, error) {
 	checkClientRecvLimit(c, res, "O6.14")
 	res.RuleDoc["O6.15"] = "the translating stream wrapper never withholds a message: every path of streamTranslator.SendMsg / RecvMsg reaches the underlying ServerStream's method (a translator's error is logged, the message is relayed as it is)"
 	checkStreamTranslatorForwards(c, res, "O6.15")
+	res.RuleDoc["O6.16"] = "the forwarder's workers do not panic on their metrics: every WithLabelValues call in package proxy that spreads a label slice field agrees with its siblings on that slice's length (same analysis as O20.12) - a panic in forwardReplicationMessages / forwardAck is not captured and ends every relay of the process"
+	checkMetricLabelSpread(c, res, "O6.16", []string{"proxy/"}, 8)
 	res.RuleDoc["O6.12"] = "the forwarder's worker bookkeeping is consistent (same analysis as O8.15): Add equals the number of goroutines started with the WaitGroup, each calls Done from an entry-block defer, none runs synchronously and Run does not return before Wait - otherwise the handler never returns or returns under running relays"
 	checkWaitGroups(c, res, "O6.12", []string{"proxy/admin_stream_transfer.go"}, 2)
 	return res, nil
